@@ -170,6 +170,8 @@ def build_pkgo(sc, sid):
                 out.add("\treturn nil", "}", "")
                 continue
             params = "s%d %sS" % (n, q) if r in ("methCall", "methValue") else ""
+            if r in ("methCallPromoted", "methValuePromoted"):
+                params = "e%d Emb" % n
             out.add("func fn%d(%s) {" % (n, params))
             post = []
             stmt = {
@@ -177,13 +179,15 @@ def build_pkgo(sc, sid):
                 "funcValue": "f%d := %sPF" % (n, q),
                 "methCall": "_ = s%d.PM(%d)" % (n, n),
                 "methCallVar": "_ = gs.PM(%d)" % n,
+                "methCallPromoted": "_ = e%d.PM(%d)" % (n, n),
+                "methValuePromoted": "f%d := e%d.PM" % (n, n),
                 "methValue": "f%d := s%d.PM" % (n, n),
                 "typeLit": "_ = %s{X: %d}" % (PT, n),
                 "typeVar": "var v%d %s" % (n, PT),
                 "typeLit2": "_ = %sPT2{X: %d}" % (q, n),
                 "plain": "_ = %sQF(%d) + %sQ{X: %d}.X" % (q, n, q, n),
             }[r]
-            if r in ("funcValue", "methValue"):
+            if r in ("funcValue", "methValue", "methValuePromoted"):
                 post = ["_ = f%d" % n]
             if r == "typeVar":
                 post = ["_ = v%d" % n]
@@ -196,7 +200,7 @@ def build_pkgo(sc, sid):
     h = Out("%s/zz_handles.go" % pdir, pname)
     h.auto_imports = pkg != "d"
     h.add("// the using package imports d directly (annotations are visible through direct imports only)", "var _ %sQ" % q, "",
-          "var gs %sS" % q, "")
+          "var gs %sS" % q, "", "// Emb embeds d.S: the methods of S are promoted to it.", "type Emb struct{ %sS }" % q, "")
     if spells & {"alias", "ptralias"}:
         # the alias declaration is itself a reference to d.PT from the using package (first use in its file)
         h.tagged("aliasdecl", "type TA = %sPT" % q if "alias" in spells else "type TP = *%sPT" % q, "")
